@@ -69,7 +69,7 @@ def only_class(cls):
 
 
 def strip(c):
-    c = copy.deepcopy({k: v for k, v in c.items() if k in ("lockstep", "mux", "frames")})
+    c = copy.deepcopy({k: v for k, v in c.items() if k in ("lockstep", "mux", "maxlen", "frames")})
     for f in c["frames"]:
         f.pop("obs", None)
     return c
@@ -92,10 +92,12 @@ class C12(Prop):
             "httptest.NewServer, half of them mounted through ServeMux; 4..15 frames ending with a valid CLOSE/REQ whose "
             "scripted reply is a sentinel; each frame is 50% a message that must be forwarded (REQ/COUNT with 1..3 valid "
             "filters, CLOSE, AUTH with an authentic or an altered event, EVENT signed by the harness over its own NIP-01 "
-            "serialisation, insignificant inner/trailing white space) and 50% one that must draw exactly one rejection "
-            "(binary frame, invalid UTF-8, non-JSON, JSON that is no client message, ill-typed members, a field breaking a "
-            "NIP-01 constraint, events with one signed field / the id / the signature altered or the signature of another "
-            "message, undecodable signatures); 9% of the cases contain one frame of a class that hits a defect known on the "
+            "serialisation, the same genuine event again, insignificant inner/trailing white space) and 50% one that must draw "
+            "exactly one rejection (binary frame, invalid UTF-8, non-JSON, JSON that is no client message, ill-typed members, "
+            "a field breaking a NIP-01 constraint, events with one signed field / the id / the signature altered or the "
+            "signature of another message, an altered copy of an event already accepted on this connection (same id, pubkey, "
+            "signature), undecodable signatures or pubkeys); MaxMessageLength is 1 MiB or (40%) just above the longest client "
+            "frame, and then half of the scripted NOTICEs are padded to the limit -1/0/+1/+2/+200 bytes; 9% of the cases contain one frame of a class that hits a defect known on the "
             "pinned tree (kind outside 0..65535, content with < > & U+2028 U+2029, white space before '['); the handler replies "
             "to about half of the messages with 1..3 scripted server messages of all seven types (Unicode, HTML characters); "
             "60% of the cases run in lock-step (send, wait for the effect), 40% pipelined; a case is non-trivial when, final "
@@ -181,6 +183,8 @@ class C12(Prop):
                 yield c2
         if c.get("mux"):
             yield dict(c, mux=False)
+        if 0 < (c.get("maxlen") or 0) < (1 << 20):
+            yield dict(c, maxlen=1 << 20)
 
     def summarize(self, c):
         return {"lockstep": c.get("lockstep"), "mux": c.get("mux"),
@@ -189,7 +193,7 @@ class C12(Prop):
                 "recv": c.get("recv"), "emitted": c.get("emitted"), "client": c.get("client"), "notes": c.get("notes")}
 
     def distribution(self, cases):
-        d = {"connections": len(cases), "lockstep": 0, "pipelined": 0, "lockstep_degraded_by_timeout": 0, "via_servemux": 0,
+        d = {"connections": len(cases), "limit_just_above_longest_frame": 0, "handler_messages_at_or_beyond_limit": 0, "lockstep": 0, "pipelined": 0, "lockstep_degraded_by_timeout": 0, "via_servemux": 0,
              "frames": 0, "frames_forwarded": 0, "rejections_seen": 0, "scripted_messages_emitted": 0,
              "frames_by_class": {}, "scripted_by_type": {}, "notices_by_text_prefix": {}, "cases_with_notes": 0}
         for c in cases:
@@ -197,6 +201,11 @@ class C12(Prop):
             if c.get("lockstep") and not c.get("ran_lockstep"):
                 d["lockstep_degraded_by_timeout"] += 1
             d["via_servemux"] += 1 if c.get("mux") else 0
+            ml = c.get("maxlen") or (1 << 20)
+            if ml < (1 << 20):
+                d["limit_just_above_longest_frame"] += 1
+                d["handler_messages_at_or_beyond_limit"] += sum(1 for f in c["frames"] for o in f.get("out") or []
+                                                                if len((o.get("a") or "").encode()) + 13 >= ml)
             d["frames"] += len(c["frames"])
             d["frames_forwarded"] += len(c.get("recv") or [])
             d["scripted_messages_emitted"] += len(c.get("emitted") or [])
